@@ -55,6 +55,8 @@ thread_local! {
     static LEDGER: Cell<Option<&'static Ledger>> = const { Cell::new(None) };
     /// hook invoked at the start of every `Tracked::clone` (E1: yield point + fault injection)
     static CLONE_HOOK: Cell<Option<*const dyn Fn()>> = const { Cell::new(None) };
+    /// hook invoked at the end of every `Tracked::drop` (E1: fault injection)
+    static DROP_HOOK: Cell<Option<*const dyn Fn()>> = const { Cell::new(None) };
 }
 
 /// The ledger of the current OS thread (created on first use, then reused for every case).
@@ -79,6 +81,24 @@ pub fn with_clone_hook<R>(hook: &dyn Fn(), f: impl FnOnce() -> R) -> R {
     let p: *const dyn Fn() = unsafe { std::mem::transmute::<&dyn Fn(), &'static dyn Fn()>(hook) };
     let _r = Reset(CLONE_HOOK.with(|c| c.replace(Some(p))));
     f()
+}
+
+pub fn with_drop_hook<R>(hook: &dyn Fn(), f: impl FnOnce() -> R) -> R {
+    struct Reset(Option<*const dyn Fn()>);
+    impl Drop for Reset {
+        fn drop(&mut self) {
+            DROP_HOOK.with(|c| c.set(self.0));
+        }
+    }
+    let p: *const dyn Fn() = unsafe { std::mem::transmute::<&dyn Fn(), &'static dyn Fn()>(hook) };
+    let _r = Reset(DROP_HOOK.with(|c| c.replace(Some(p))));
+    f()
+}
+
+fn drop_hook() {
+    if let Some(p) = DROP_HOOK.with(|c| c.get()) {
+        unsafe { (*p)() }
+    }
 }
 
 fn clone_hook() {
@@ -140,6 +160,8 @@ impl Drop for Tracked {
         } else {
             self.led.drops[i].fetch_add(1, Relaxed);
         }
+        // the destructor has done its work (the ledger counts it); it may now panic like a user destructor can
+        drop_hook();
     }
 }
 
